@@ -88,6 +88,11 @@ class FakeConn:
 
     block_at = None   # k: from its (k+1)-th sendall on, a NON-BLOCKING send writes part of its bytes and raises BlockingIOError
 
+    def fileno(self):
+        """file descriptor number: the connection's index (a harness that models the OS handing the lowest free descriptor to
+        the next accept() gives the new connection the index of the one that was closed)"""
+        return self.i + 100
+
     def sendall(self, b, flags=0):
         # pure recording: no operation on (possibly symbolic) field values, so it runs outside the tracer
         with NoTracing():
